@@ -46,7 +46,7 @@ MUTANTS = {
                       'old': 'value=np.cross(self.array, other),', 'new': 'value=np.cross(other, self.array),'},
     'norm_drops_valid': {'module': 'field', 'contract': 'Field.norm', 'config': {'ndim': 2, 'nvdim': 3},
                          'old': 'self.mesh, nvdim=1, value=res, unit=self.unit, valid=self.valid', 'new': 'self.mesh, nvdim=1, value=res, unit=self.unit'},
-    'orientation_no_guard': {'module': 'field', 'contract': 'Field.orientation', 'config': {'ndim': 2, 'nvdim': 3},
+    'orientation_no_guard': {'expect': 'zero where the field is within the threshold', 'module': 'field', 'contract': 'Field.orientation', 'config': {'ndim': 2, 'nvdim': 3},
                              'old': 'where=np.invert(np.isclose(self.norm.array, 0)),', 'new': 'where=self.norm.array != 0.0,'},
     'stack_order': {'module': 'field', 'contract': 'Field.__lshift__', 'config': {'ndim': 2, 'nvdim': 3, 'other': 'field'},
                     'old': """        array_list = [self.array[..., i] for i in range(self.nvdim)]
